@@ -92,7 +92,13 @@ def invariant(h, ctx, t, label, graph_clause=True):
             continue
         ensure(h, ctx, f"C10.{label}.cache-dtype", z3.BoolVal(slot.dtype == param_dtype(t)), meta={"slot": name, "slot_dtype": str(slot.dtype), "param_dtype": str(param_dtype(t))})
         if slot.dtype == param_dtype(t):
-            ensure(h, ctx, f"C10.{label}.cache-current", eq_t(slot, acc()), meta={"slot": name})
+            cur = acc()
+            if name == "logabsdet" and tuple(P(slot).shape) == tuple(P(cur).shape) and not z3.eq(toreal(P(slot).reshape(-1)[0]), toreal(P(cur).reshape(-1)[0])):
+                # the slot may have been filled by another formula for the same quantity (weight_inverse_and_logabsdet): compare the products
+                from .modules import ensure_logs_cancel
+                ensure_logs_cancel(h, ctx, f"C10.{label}.cache-current", toreal(P(slot).reshape(-1)[0]) - toreal(P(cur).reshape(-1)[0]))
+            else:
+                ensure(h, ctx, f"C10.{label}.cache-current", eq_t(slot, cur), meta={"slot": name, "tactic": "ring"})
         if graph_clause:
             ensure(h, ctx, f"C10.{label}.no-graph-in-cache", z3.BoolVal(not bool((slot._g or {}).get("graph"))), meta={"slot": name})
 
@@ -108,6 +114,10 @@ def cache_harness(cname, op, training, using, pat):
 
     def run(h, ctx):
         t = make()
+        if cname == "SVDLinear":
+            # modular: the two orthogonal factors are seen through their contract (proved on HouseholderSequence in C11)
+            from .linearfam import stub_orthogonal_parts
+            stub_orthogonal_parts(t, D)
         symbolise(h, t)
         t.training = training
         for m in t.modules(): m.training = training
@@ -174,8 +184,15 @@ def cache_harness(cname, op, training, using, pat):
             ensure(h, ctx, f"C10.{op}.flags-unchanged", z3.BoolVal(t.using_cache == using and (t.training == training)))
         invariant(h, ctx, t, op)
         if res is not None:
-            ensure(h, ctx, f"C10.{op}.equals-uncached-output", eq_t(res[0], ref[0]))
-            ensure(h, ctx, f"C10.{op}.equals-uncached-logdet", eq_t(res[1], ref[1]))
+            ensure(h, ctx, f"C10.{op}.equals-uncached-output", eq_t(res[0], ref[0]), meta={"tactic": "ring"})
+            pa, pb = P(res[1]), P(ref[1])
+            if tuple(pa.shape) == tuple(pb.shape) and not all(z3.eq(toreal(a_), toreal(b_)) for a_, b_ in zip(pa.reshape(-1), pb.reshape(-1))):
+                # different formulas for the same log-abs-det (e.g. slogdet against the sum of log |diag(LU)|): equal iff the products agree
+                from .modules import ensure_logs_cancel
+                for a_, b_ in zip(pa.reshape(-1), pb.reshape(-1)):
+                    ensure_logs_cancel(h, ctx, f"C10.{op}.equals-uncached-logdet", toreal(a_) - toreal(b_))
+            else:
+                ensure(h, ctx, f"C10.{op}.equals-uncached-logdet", eq_t(res[1], ref[1]))
             ensure(h, ctx, f"C10.{op}.result-dtype", z3.BoolVal(res[0].dtype == ref[0].dtype and res[1].dtype == ref[1].dtype))
 
     # ---- native replay: drive the real class into the pre-state by a canonical history, apply the operation, compare with uncached
@@ -274,7 +291,7 @@ def cache_harnesses(tier):
     hs = []
     # NaiveLinear's inverse path goes through torch.lu, which is only an opaque contract here (two factorisation handles of the same
     # matrix are not related beyond |prod diag| = |det|): its cached-vs-uncached log-det equality is not decidable with it, so the class is not claimed
-    classes = ["Stub", "LULinear", "OneByOneConvolution", "QRLinear"] if tier != "quick" else ["Stub", "LULinear", "OneByOneConvolution"]
+    classes = ["Stub", "LULinear", "OneByOneConvolution", "QRLinear", "SVDLinear", "NaiveLinear"]
     for cname in classes:
         for op in OPS:
             for training, using in itertools.product([True, False], repeat=2):
